@@ -36,6 +36,9 @@ Theorem C11_day_start : forall t, day_start t <= t < day_start t + 86400 /\ day_
 Proof. exact day_start_spec. Qed.
 Theorem C11_time_of_day : forall t, 0 <= second_of_day t < 86400 /\ t = day_start t + second_of_day t.
 Proof. exact second_of_day_spec. Qed.
+(* the same clock time on any two days is in the same time-of-day slice, however far apart the days are *)
+Theorem C11_same_clock_time_same_slice : forall t k, second_of_day (t + k * 86400) = second_of_day t.
+Proof. exact second_of_day_periodic. Qed.
 Theorem C11_week_start_is_a_monday : forall t,
   week_start t <= t < week_start t + 7 * 86400 /\ weekday (week_start t) = 0 /\ week_start t mod 86400 = 0.
 Proof. exact week_start_spec. Qed.
